@@ -103,6 +103,7 @@ def make_body(k, n, mode, valued, perm, kw):
         coef = env.array('c', (k, n))
         pts_l = [10 * (i + 1) for i in perm]
         del LOGS[:]
+        returned = []
         ASSUME_POS[0] = (valued == 'spectrum' and k >= 3)
 
         def poly(i):
@@ -119,12 +120,16 @@ def make_body(k, n, mode, valued, perm, kw):
             if valued == 'spectrum':
                 fs = dadi.Spectrum(v, mask_corners=False, pop_ids=['popA'])
                 fs.extrap_x = xs[i]
+                returned.append((i, fs))
                 return fs
             if valued == 'attr':
                 a = np.asarray(v).view(ArrX)
                 a.extrap_x = xs[i]
+                returned.append((i, a))
                 return a
-            return np.asarray(v)
+            a = np.asarray(v)
+            returned.append((i, a))
+            return a
         xl = [xs[i] for i in perm] if valued == 'list' else None
         if mode == 'log':
             f = Numerics.make_extrap_log_func(model, extrap_x_l=xl)
@@ -136,6 +141,14 @@ def make_body(k, n, mode, valued, perm, kw):
             else:
                 res = f(7, list(pts_l))
         expected = np.exp(coef[0]) if mode == 'log' else coef[0]
+        # the arrays the model handed back must not have been modified (a memoising model would otherwise be corrupted,
+        # and an extrapolant aliasing the finest-grid result defeats the fall-back)
+        for i, arr in returned:
+            want_i = np.exp(poly(i)) if mode == 'log' else poly(i)
+            got_i = np.asarray(np.ma.getdata(arr))
+            for j in range(n):
+                env.eq_struct('model result of grid %d entry %d unchanged' % (i, j), got_i[j], want_i[j])
+        env.holds('result is not one of the model results', all(res is not arr for _, arr in returned) or k == 1)
         resd = np.asarray(np.ma.getdata(res))
         if k == 1:
             for j in range(n):
